@@ -89,18 +89,24 @@ def ramseyGuard (edge : Bool) (i2 k s : Nat) : Option Int :=
   else if edge && decide (i2 ≤ s) then some 1
   else none
 
+/-- the clause `[c, -a, -b]` when the selector literal is `some c`, nothing otherwise -/
+def ramseyGuarded (g : Option Int) (a b : Int) : List Con :=
+  match g with
+  | some c => [Con.clause [c, -a, -b]]
+  | none => []
+
+/-- one round of the "local consistency" loop: rows `i.1 < i.2`, vertices `j.1 < j.2`; first the clause of the
+increasing placement, then the one of the decreasing placement (forbidden outright with symmetry breaking) -/
+def ramseyPairCons (G : SimpleG) (k s : Nat) (symbreak : Bool) (i j : Nat × Nat) : List Con :=
+  let N := G.n
+  let g := ramseyGuard (adj G j.1 j.2) i.2 k s
+  ramseyGuarded g (mlit 2 N i.1 j.1) (mlit 2 N i.2 j.2) ++
+    (if symbreak then [Con.clause [-(mlit 2 N i.1 j.2), -(mlit 2 N i.2 j.1)]]
+     else ramseyGuarded g (mlit 2 N i.1 j.2) (mlit 2 N i.2 j.1))
+
 /-- the "local consistency" loop of `RamseyWitnessFormula` over `max k s` rows -/
 def ramseyEdgeCons (G : SimpleG) (k s : Nat) (symbreak : Bool) : List Con :=
-  let N := G.n
-  (pairs2 (verts (max k s))).flatMap (fun i => (pairs2 (verts N)).flatMap (fun j =>
-    let g := ramseyGuard (adj G j.1 j.2) i.2 k s
-    (match g with
-     | some c => [Con.clause [c, -(mlit 2 N i.1 j.1), -(mlit 2 N i.2 j.2)]]
-     | none => []) ++
-    (if symbreak then [Con.clause [-(mlit 2 N i.1 j.2), -(mlit 2 N i.2 j.1)]]
-     else match g with
-     | some c => [Con.clause [c, -(mlit 2 N i.1 j.2), -(mlit 2 N i.2 j.1)]]
-     | none => [])))
+  (pairs2 (verts (max k s))).flatMap (fun i => (pairs2 (verts G.n)).flatMap (ramseyPairCons G k s symbreak i))
 
 /-- the part of `RamseyWitnessFormula` after the validation.  Variable 1 is `C` ("maybe clique");
 one mapping `s_{i,j}` = `mapId 2 N i j` with `max k s` rows serves both alternatives: under `C` its first
